@@ -513,6 +513,7 @@ pub fn run_main(a: RunArgs) -> i32 {
         "held-on-observed"
     };
     cov.insert("verdict".into(), json!(verdict));
+    cov.insert("family_scale".into(), json!(crate::ctx::thorough_scale(&a.prop, a.tier)));
     let ev = json!({
         "property_id": a.prop,
         "tier": a.tier.name(),
